@@ -743,6 +743,10 @@ def did_services(u):
     return [
         dict(name='fn_rdbi_request_1', params=[('d1', 'Z')], result='Y', call=request(lambda c, d1: c.read_data_by_identifier([d1]), cfg())),
         dict(name='fn_rdbi_request_2', params=[('d1', 'Z'), ('d2', 'Z')], result='Y', call=request(lambda c, d1, d2: c.read_data_by_identifier([d1, d2]), cfg())),
+        dict(name='fn_rdbi_interpret', params=[('d', ('seqx', 9, 1))], result='S',
+             call=interpret(lambda c: c.read_data_by_identifier([0xF190, 0x0102]), 0x62,
+                            lambda r: [len(r.service_data.values)] + [x for k in sorted(r.service_data.values, key=lambda z: z if isinstance(z, int) else 0)
+                                                                      for x in (k, ('bytes', r.service_data.values[k]))], cfg())),
         dict(name='fn_rdbi_request_2_default', params=[('d1', 'Z'), ('d2', 'Z')], result='Y',
              call=request(lambda c, d1, d2: c.read_data_by_identifier([d1, d2]), cfg(True))),
     ]
